@@ -125,6 +125,15 @@ extern char*
 xmempbrk(const char *src, size_t len, const char *set);
 
 
+/**
+ * Turn the return value N of snprintf(BUF, Z, ...) into the number of
+ * characters actually stored in BUF. */
+static inline size_t
+snprintfd(int n, size_t z)
+{
+	return n <= 0 || !z ? 0U : (size_t)n < z ? (size_t)n : z - 1U;
+}
+
 static inline char
 ui2c(uint32_t x, char pad)
 {
